@@ -331,6 +331,21 @@ func runRL(t *testing.T, c rlCase) (out outcome, err error) {
 					return
 				}
 			}
+			// cap: once every token is handled, fewer than MaxPendingEvents Adds can be waiting for their signal. Adds
+			// issued after the most recent signal are certainly waiting (Adds at the same instant may or may not be).
+			if c.Cap > 0 && !c.Slow && !closeIssued && ctx.Err() == nil {
+				waiting := 0
+				for _, at := range addTimes {
+					if len(sig) == 0 || at.After(sig[len(sig)-1]) {
+						waiting++
+					}
+				}
+				if waiting >= c.Cap {
+					out.capHit = true // (about to fail)
+					errs.Failf("after %s: %d Adds issued after the most recent signal are still waiting for theirs although MaxPendingEvents is %d: no signal was sent when the cap was reached (adds at %v, signals at %v)", step, waiting, c.Cap, rel(addTimes, addTimes), rel(sig, addTimes))
+					return
+				}
+			}
 			if c.Exact && !closeIssued && ctx.Err() == nil {
 				m.expire(time.Now())
 				if len(sig) != len(m.signals) {
